@@ -467,6 +467,7 @@ def run(rep, tier_, rng):
     regimes = {}
     for c in calls.values():
         regimes[c["fn"] + ":" + c["regime"]] = regimes.get(c["fn"] + ":" + c["regime"], 0) + 1
+    insts, not_attempted = calcb.fit_budget(insts, max(30, (115 if q else 1100) - tgen))
     run_and_report(rep, insts, calls, tag="C28_%s" % tier_, params={"sentence_timeout": 60, "single_timeout": 80},
                    budget=max(30, (115 if q else 1100) - tgen), jobs=10,
                    rule="each evaluation = one call of diff/diffs/diffun/taylor/difference/pade/differint of the current /repo code: test functions "
@@ -477,7 +478,7 @@ def run(rep, tier_, rng):
                         "for (L,M) incl. (0,0); differint of x^k at integer and half-integer orders in [-2, 4]; distinct = distinct lemma "
                         "statements; non-trivial = error not exactly zero against a folded rational",
                    assumptions=ASSUMPTIONS,
-                   extra_cov={"regimes": regimes, "generation_wall_s": round(tgen, 1), "tolerance": "2^(10-p)*max(|ref|,1)", **stats})
+                   extra_cov={"lemmas_not_attempted_for_time": not_attempted, "regimes": regimes, "generation_wall_s": round(tgen, 1), "tolerance": "2^(10-p)*max(|ref|,1)", **stats})
 
 
 def replay(rep, path):
